@@ -233,9 +233,12 @@ def cases(draw):
                 rot = draw(gen.rotvecs())
             classes = ["interior"]
         elif kind == "boundary":
-            classes = [draw(st.sampled_from(["frac", "low", "high", "edge", "out"])) for _ in range(3)]
+            # half of the boundary cases only straddle faces (every voxel inside the tomogram is still compared); the other
+            # half also touches / leaves the tomogram, where the error behaviour is what is checked
+            pool = ["frac", "low", "high"] if draw(st.booleans()) else ["frac", "low", "high", "edge", "out"]
+            classes = [draw(st.sampled_from(pool)) for _ in range(3)]
             if all(c_ == "frac" for c_ in classes):
-                classes[draw(st.integers(0, 2))] = draw(st.sampled_from(["low", "high", "edge", "out"]))
+                classes[draw(st.integers(0, 2))] = draw(st.sampled_from(pool[1:]))
             c = [draw(axis_pos(n, s, order, cl)) for n, s, cl in zip(tshape, shape, classes)]
             rot = draw(gen.rotvecs())
         else:
